@@ -408,7 +408,10 @@ class ComponentLevel3( ComponentLevel2 ):
 
         obj = obj.get_parent_object()
         while obj.is_signal():
-          writer_prop[ obj ] = False
+          # An ancestor that is written itself stays a propagatable writer
+          # whatever order the written objects are visited in.
+          if obj not in writer_prop:
+            writer_prop[ obj ] = False
           obj = obj.get_parent_object()
 
     # Find the host object of every net signal
